@@ -64,12 +64,12 @@ theorem decodeTypedef_typeName (n : Bytes) (h : TypeNameOK n) : decodeTypedef (t
   | nil => exact absurd rfl hne
   | cons a r => simp [getTypeName, hp]
 
-def GlobalOK (g : GlobalDef) : Prop := g.name ≠ [] ∧ g.width ≠ 1
+def GlobalOK (g : GlobalDef) : Prop := g.name ≠ []
 
 theorem decodeGlobal_print (useHex : Int → Bool) (g : GlobalDef) (h : GlobalOK g) :
     decodeGlobal (globalName g.name) g.width (litOf useHex g) = some g := by
-  obtain ⟨hne, hw⟩ := h
-  obtain ⟨s, hs, hparse⟩ := Props.C09.ident_roundtrip g.width hw g.value (useHex g.value)
+  have hne : g.name ≠ [] := h
+  obtain ⟨s, hs, hparse⟩ := Props.C09.ident_roundtrip g.width g.value (useHex g.value)
   unfold decodeGlobal litOf
   rw [globalIdent_globalName g.name hne, hs]
   simp only [hparse]
